@@ -126,6 +126,8 @@ pub fn positive_digit_comp<F: RawFloat, const FORMAT: u128>(
     mut bigmant: Bigint,
     exponent: i32,
 ) -> ExtendedFloat80 {
+    #[cfg(lexical_verif)]
+    lexical_util::verif::hit(lexical_util::verif::PARSE_DIGIT_COMP_POSITIVE);
     let format = NumberFormat::<{ FORMAT }> {};
 
     // Simple, we just need to multiply by the power of the radix.
@@ -185,6 +187,8 @@ pub fn negative_digit_comp<F: RawFloat, const FORMAT: u128>(
     mut fp: ExtendedFloat80,
     exponent: i32,
 ) -> ExtendedFloat80 {
+    #[cfg(lexical_verif)]
+    lexical_util::verif::hit(lexical_util::verif::PARSE_DIGIT_COMP_NEGATIVE);
     // Ensure our preconditions are valid:
     //  1. The significant digits are not shifted into place.
     debug_assert!(fp.mant & (1 << 63) != 0, "the significant digits must be normalized");
@@ -596,6 +600,8 @@ pub fn byte_comp<F: RawFloat, const FORMAT: u128>(
     mut fp: ExtendedFloat80,
     sci_exp: i32,
 ) -> ExtendedFloat80 {
+    #[cfg(lexical_verif)]
+    lexical_util::verif::hit(lexical_util::verif::PARSE_BYTE_COMP);
     // Ensure our preconditions are valid:
     //  1. The significant digits are not shifted into place.
     debug_assert!(fp.mant & (1 << 63) != 0);
